@@ -278,6 +278,8 @@ type world struct {
 	scratch string
 	cancel  context.CancelFunc
 	raftDir string
+	rec     *recorder // round 8c: calls recorded by the components behind the served cluster
+	hsLines []string  // `hs` lines of the handshakes made while serving the current configuration
 }
 
 func (w *world) pid(i int) peer.ID { return w.ids[i] }
@@ -421,6 +423,14 @@ func (w *world) consensusFor(c config) (ipfscluster.Consensus, func(), error) {
 	return cons, cleanup, nil
 }
 
+// flushHs prints the `hs` lines collected while the current configuration was being served.
+func (w *world) flushHs(out *common.Out) {
+	for _, l := range w.hsLines {
+		out.Line("%s", l)
+	}
+	w.hsLines = nil
+}
+
 func hasHandshake(ops []int) bool {
 	for _, o := range ops {
 		if o >= hsBase {
@@ -458,10 +468,19 @@ func (w *world) handshake(s *served, caller int) error {
 	cctx, cancel := context.WithTimeout(ctx, 20*time.Second)
 	defer cancel()
 	cl := w.rclient[caller-1]
+	untrusted := !s.cons.IsTrustedPeer(cctx, w.pid(caller))
+	w.rec.take()
 	var v api.Version
 	cl.CallContext(cctx, w.server.h.ID(), "Cluster", "Version", struct{}{}, &v)
+	var id0 api.ID
+	cl.CallContext(cctx, w.server.h.ID(), "Cluster", "ID", struct{}{}, &id0)
 	var id api.ID
 	cl.CallContext(cctx, w.server.h.ID(), "Cluster", "PeerAdd", w.pid(caller), &id)
+	// what the components behind the server saw while the three open handlers ran for a caller the consensus does not
+	// trust (for a trusted caller nothing is claimed: it may call the trusted endpoints anyway)
+	if calls := w.rec.take(); untrusted {
+		w.hsLines = append(w.hsLines, fmt.Sprintf("C07 hs %s %d => %s", s.mode, caller, calls))
+	}
 	return nil
 }
 
@@ -500,6 +519,7 @@ func clusterConfig(c config) (*ipfscluster.Config, error) {
 }
 
 type served struct {
+	mode    string
 	cons    ipfscluster.Consensus
 	cluster *ipfscluster.Cluster
 	local   *rpc.Client
@@ -522,9 +542,15 @@ func (w *world) serve(c config) (*served, error) {
 		defer func() { recover() }()
 		cfg.Validate()
 	}()
+	// round 8c: recording tracker / IPFS connector / allocator and a recording wrapper around the real consensus, so that a
+	// handler that drives a component on behalf of a remote caller leaves a trace (handshake op -> `hs` lines)
+	rec := &recorder{}
+	w.rec = rec
 	cl := ipfscluster.VerifNewCluster(ctx, ipfscluster.VerifComponents{
-		ID: w.server.h.ID(), Config: cfg, Host: w.server.h, Consensus: cons, Monitor: common.NewStoreMonitor(),
+		ID: w.server.h.ID(), Config: cfg, Host: w.server.h, Consensus: recConsensus{cons, rec}, Monitor: common.NewStoreMonitor(),
+		IPFS: recIPFS{rec}, Tracker: recTracker{rec}, Allocator: recAlloc{rec},
 	})
+	cl.VerifC18Prepare() // a peer manager on the host (Cluster.ID reads it) and a no-op tracer
 	srv, err := ipfscluster.VerifNewRPCServer(cl)
 	if err != nil {
 		cleanup()
@@ -532,7 +558,7 @@ func (w *world) serve(c config) (*served, error) {
 	}
 	local := rpc.NewClientWithServer(w.server.h, version.RPCProtocol, srv)
 	cl.VerifSetRPC(srv, local)
-	sv := &served{cons: cons, cluster: cl, local: local, cleanup: func() { cl.VerifCancel(); cleanup() }}
+	sv := &served{mode: c.mode, cons: cons, cluster: cl, local: local, cleanup: func() { cl.VerifCancel(); cleanup() }}
 	if hasHandshake(c.ops) {
 		if err := w.applyOps(cons, c.ops, func(caller int) error { return w.handshake(sv, caller) }); err != nil {
 			sv.cleanup()
@@ -673,6 +699,7 @@ func (w *world) runConfig(out *common.Out, c config, rpcLines bool, rawEvery int
 		return err
 	}
 	defer s.cleanup()
+	w.flushHs(out)
 	for p := 0; p < universe; p++ {
 		b := 0
 		if s.cons.IsTrustedPeer(ctx, w.pid(p)) {
@@ -962,6 +989,29 @@ func (w *world) replayAuth(out *common.Out) {
 			out.Line("%s", cfgLine(w.ids, raw, srcs))
 			continue
 		}
+		if f[0] == "hs" {
+			caller := 0
+			if len(f) >= 3 {
+				caller, _ = strconv.Atoi(f[2])
+			}
+			if len(f) < 3 || f[1] != "crdt" || caller < 1 || caller > nClients {
+				out.Line("C07 %s => unparsable", strings.Join(f, " "))
+				continue
+			}
+			if cur != nil {
+				cur.cleanup()
+				cur, curKey = nil, ""
+			}
+			// crdt peer that lists nobody: the caller is not trusted; one handshake by it
+			s, err := w.serve(config{kind: "shipped", mode: "crdt", raw: []int{}, ops: []int{hsBase + caller}})
+			if err != nil {
+				out.Line("# inconclusive C07 %s (setup: %v)", strings.Join(f, " "), err)
+				continue
+			}
+			w.flushHs(out)
+			s.cleanup()
+			continue
+		}
 		c, err := configOfLine(f)
 		if err != nil {
 			out.Line("C07 %s => unparsable", strings.Join(f, " "))
@@ -1052,6 +1102,10 @@ func main() {
 	}
 	if suite == "pol" {
 		runPol(out, args)
+		return
+	}
+	if suite == "dmn" {
+		runDmn(out, args)
 		return
 	}
 	w, err := newWorld()
